@@ -133,3 +133,13 @@ Proof.
   - exact Hth.
   - apply IH. exact (Forall_inv_tail H).
 Qed.
+
+(* the dense stage reads its parameters and input only inside their dimensions *)
+Lemma dense_stage_local o n phi phi' (th th' x x' : vec) :
+  (forall i, (i < o * n + o)%nat -> th i = th' i) -> (forall i, (i < n)%nat -> x i = x' i) ->
+  forall i, (i < o)%nat -> sfwd (dense_stage o n phi phi') th x i = sfwd (dense_stage o n phi phi') th' x' i.
+Proof.
+  intros Ht Hx i Hi. cbn [dense_stage sfwd]. f_equal. unfold pre, affR, Wof, Bof.
+  rewrite (Ht (o * n + i)%nat) by lia. f_equal. apply bsum_ext. intros j Hj.
+  rewrite (Ht (i * n + j)%nat) by nia. rewrite (Hx j Hj). reflexivity.
+Qed.
